@@ -126,13 +126,10 @@ def updateObject {V} (e : Elem V) (o : Obj V) (a : Args) : Except Err (Obj V) :=
   | .error x => .error x
   | .ok data => .ok (data.foldl (fun o p => o.set p.1 p.2) o)   -- `for attribute, value in data.items(): setattr(...)`
 
-/-- `attributes.update(key for key, value in rename if value in attributes)`: the generator is
-    consumed while the set is being updated, so a pair can see names added by earlier pairs -/
-def growAttrs : List Str → List (Str × Str) → List Str
-  | attrs, [] => attrs
-  | attrs, (k, v) :: rest =>
-    if attrs.contains v then growAttrs (if attrs.contains k then attrs else attrs ++ [k]) rest
-    else growAttrs attrs rest
+/-- `attributes = fields.copy(); attributes.update([key for key, value in dict(rename).items() if value in fields])`:
+    the declared fields, plus every name the renaming (seen as a mapping) sends to a declared field -/
+def renAttrs (fields : List Str) (ren : List (Str × Str)) : List Str :=
+  fields ++ ((dictOf ren).filter fun p => fields.contains p.2 && !fields.contains p.1).map (·.1)
 
 def sortStrs (l : List Str) : List Str := (sortByKey (l.map fun s => (s, ()))).map (·.1)
 
@@ -159,19 +156,16 @@ def dictSetValue {V} (S : Schema V) (final : List (Str × V)) : Option Err × El
 
 /-- `sorted(attributes)` after the rename scan and the removal of omitted names -/
 def candidates (fields : List Str) (a : Args) : List Str :=
-  let attrs := growAttrs fields a.ren                      -- `if rename: attributes.update(...)`
+  let attrs := renAttrs fields a.ren                       -- `if rename: attributes.update([...])`
   sortStrs (attrs.filter fun x => !a.om.contains x)        -- `if omit: attributes.difference_update(omit)`
 
 /-- `((attr, getattr(obj, attr)) for attr in sorted(attributes) if hasattr(obj, attr))` -/
 def readable {V} (o : Obj V) (cand : List Str) : List (Str × V) :=
   cand.filterMap fun x => (o.get x).map (x, ·)
 
-/-- `set(self.keys())`: the declared fields for a Dict; only the members that exist for a SparseDict -/
-def effFields {V} (S : Schema V) (e : Elem V) : List Str := if S.sparse then keys e else S.fields
-
 /-- `Dict.set_by_object` on an element in state `e` -/
 def setByObject {V} (S : Schema V) (e : Elem V) (o : Obj V) (a : Args) : SetByResult V :=
-  let fields := effFields S e                              -- `set(self.keys())`
+  let fields := S.fields                                   -- `set(self.field_schema_mapping)`
   let cand := candidates fields a
   -- keyslice_pairs is a generator: its `include and omit` test runs at the first `next()`,
   -- before `possible` is advanced, so nothing has been read from the object yet
